@@ -78,6 +78,9 @@ func (e *Engine) execCall(st *State, c *ssa.CallCommon, instr ssa.Instruction, p
 			// call-site assertions apply to callees without contract too
 			if ann := e.callAnnotation(st, instr, name); ann != nil {
 				cenv := e.funcEnv(st)
+				for i, a := range args {
+					cenv.vars[fmt.Sprintf("$arg%d", i)] = a
+				}
 				for _, u := range ann.Uses {
 					st.assume(e.evalBool(cenv, u))
 				}
@@ -403,6 +406,10 @@ func (e *Engine) applyContract(st *State, fc *contract.Func, f *ssa.Function, si
 	// ghost instantiation from "at call" annotations of the caller
 	ann := e.callAnnotation(st, instr, name)
 	callerEnv := e.funcEnv(st)
+	// $arg0, $arg1, ...: the argument values of this call (receiver first), usable in "at call" assertions
+	for i, a := range args {
+		callerEnv.vars[fmt.Sprintf("$arg%d", i)] = a
+	}
 	for _, g := range fc.Ghosts {
 		gname := strings.Fields(g)[0]
 		var gv Value
